@@ -97,7 +97,7 @@ def replay_numpy(req, tmp):
     kw = {}
     hdr_in = {}
     for f, dt in opts.get('headers', ()):
-        npdt = {'i4': np.int32, 'i8': np.int64, 'i2': np.int16}[dt]
+        npdt = {'i4': np.int32, 'i8': np.int64, 'i2': np.int16, '>i4': np.dtype('>i4')}[dt]
         lim = 2 ** 15 if dt == 'i2' else 2 ** 31
         hdr_in[f] = rng.integers(-lim, lim - 1, size=dims[:2]).astype(npdt)
     if hdr_in:
